@@ -171,7 +171,10 @@ def run(ctx):
             ctx.sample(dict(cfg=cfg, input=strings[-1], expected=sorted(ref.admissible(strings[-1], cfg["separator"] or "", cfg["lowercase"], cfg["keep_zeros"], cfg["max_length"])) if cfg["separator"] else "len<=max"))
             nsamples += 1
     # integer sanitiser + presets
-    ustr = [s for s in base if len(s) <= 4] + [" 7 ", "\t007\n", "٣", "１２", "𝟘", "1_0", "+1", "-1", "1e3", "0x10", " ", "007", "000"] + rand[:2000]
+    ustr = ["".join(t) for n in range(0, 5) for t in itertools.product(["+", "-", "0", "1", "9", " ", "a", "."], repeat=n)]
+    ustr += ["18446744073709551615", "18446744073709551616", "0018446744073709551616", "9" * 30, "0" * 25 + "7", "+18446744073709551616", "4294967296", "+4294967296",
+             "\t12\n", "12\n", "\u00a012", "1_000", "1e3", "0x1f", "٠", "١٢", "１", "²", "+0", "-0", "+", "++1", "+ 1", "1+", "٣+"]
+    ustr += [s for s in base if len(s) <= 4] + [" 7 ", "\t007\n", "٣", "１２", "𝟘", "1_0", "+1", "-1", "1e3", "0x10", " ", "007", "000"] + rand[:2000]
     ujobs = [(ctx.bins, part) for part in core.split_even(ustr, 8)]
     for (b, strings), r in zip(ujobs, core.pmap(work_uint, ujobs)):
         ctx.evaluations += r["n"]
